@@ -49,6 +49,12 @@ type oracles struct {
 
 	lastProcessed []string
 
+	everCached map[string]bool // conv/stream had output at some step
+
+	attachedAfter map[int]map[string]bool // step -> converters attached to some tag after that step
+
+	convLogSeen int
+
 	furtherHistory bool
 
 	importFailLeft, failedCreates                 int
@@ -67,7 +73,7 @@ type oracles struct {
 }
 
 func newOracles(s *Sim) *oracles {
-	return &oracles{importFailLeft: s.plan.ImportFail, furtherHistory: s.plan.Prop == "C12", s: s, prop: s.plan.Prop, held: map[int]*heldView{}, refCache: map[string][]*oracle.StreamSig{}, convSpawnAttached: map[int]map[string]bool{}, onDemand: map[string]bool{}, stateSigs: map[string]bool{}, firstSeen: map[string]string{}, changedAt: map[string][]int{}, flagged: map[string]bool{}}
+	return &oracles{everCached: map[string]bool{}, attachedAfter: map[int]map[string]bool{}, importFailLeft: s.plan.ImportFail, furtherHistory: s.plan.Prop == "C12", s: s, prop: s.plan.Prop, held: map[int]*heldView{}, refCache: map[string][]*oracle.StreamSig{}, convSpawnAttached: map[int]map[string]bool{}, onDemand: map[string]bool{}, stateSigs: map[string]bool{}, firstSeen: map[string]string{}, changedAt: map[string][]int{}, flagged: map[string]bool{}}
 }
 
 // trigger names the kind of step at which a violation was first observed.
@@ -368,6 +374,7 @@ func (o *oracles) afterAPI(op Op, r OpResult) {
 func (o *oracles) beforeBody(j *jobRec) {
 	if j.kind == simrt.KindConvert {
 		o.convJobActive = true
+		o.convLogSeen = len(o.vconvLog())
 	}
 	// disk error faults: the file system refuses to create index files
 	if j.kind == simrt.KindMerge && o.s.plan.MergeFail {
@@ -379,7 +386,35 @@ func (o *oracles) beforeBody(j *jobRec) {
 	}
 }
 
+// vconvLog returns the invocation log of the harness converter.
+func (o *oracles) vconvLog() []string {
+	b, err := os.ReadFile(filepath.Join(o.s.scratch, "vconv", "log"))
+	if err != nil {
+		return nil
+	}
+	return strings.Split(strings.TrimSpace(string(b)), "\n")
+}
+
 func (o *oracles) afterBody(j *jobRec) {
+	if j.kind == simrt.KindConvert && o.on("C16") {
+		// "detaching stops further runs": a converter job may only run converters
+		// that were attached to some tag when the job was started
+		lines := o.vconvLog()
+		att, known := o.attachedAfter[j.spawnStep]
+		for _, l := range lines[min(o.convLogSeen, len(lines)):] {
+			name, rest, _ := strings.Cut(l, " ")
+			sid, _, _ := strings.Cut(rest, " ")
+			// re-converting a stream whose earlier output an import invalidated is
+			// what the property asks for, attached or not
+			if known && name != "" && !att[name] && !o.everCached[name+"/"+sid] && !o.onDemand[name+"/"+sid] {
+				if o.violate("convert", "ran-detached", fmt.Sprintf("converter job %s (started at step %d, when %s was attached to no tag) ran converter %s: %q", j.name(), j.spawnStep, name, name, l)) {
+					break
+				}
+			}
+			o.s.res.Count("c16_invocations_checked", 1)
+		}
+		o.convLogSeen = len(lines)
+	}
 	simrt.FailCreates("", 0)
 	if n := simrt.FailedCreates(); n > o.failedCreates {
 		o.s.res.Count("fault_create_error_"+simrt.KindNames[j.kind], int64(n-o.failedCreates))
@@ -459,6 +494,13 @@ func (o *oracles) afterStep(st stepRef) {
 	if o.s.crash != nil {
 		o.s.crash.models = append(o.s.crash.models, o.crashModel())
 	}
+	att := map[string]bool{}
+	for _, t := range o.state.Tags {
+		for _, c := range t.Converters {
+			att[c] = true
+		}
+	}
+	o.attachedAfter[o.s.stepNo] = att
 	o.noteTagChanges()
 	if os.Getenv("VERIF_TRACE") != "" {
 		fmt.Fprintf(os.Stderr, "TRACE step %d %s:", o.s.stepNo, st.label)
